@@ -134,7 +134,7 @@ Qed.
 Theorem gauleg_writes_eq orig x1 x2 npts coss :
   F.gauleg_gen_w orig x1 x2 npts coss = F.gauleg_gen orig x1 x2 npts coss.
 Proof.
-  unfold F.gauleg_gen_w, F.gauleg_gen, F.reject_npts.
+  unfold F.gauleg_gen_w, F.gauleg_gen, F.reject_npts, F.outer_trips, F.inner_trips, F.REJECT_ERR.
   destruct (Z.leb_spec npts 0) as [Hn|Hn]; [reflexivity|].
   destruct (Nat.eqb_spec (length coss) (Z.to_nat (F.m_of npts))) as [Hc|Hc]; simpl; [|reflexivity].
   destruct (F.roots orig F.NEWTON_FUEL (Z.to_nat npts) (F.of_Z npts) coss F.Z1_INIT F.PP_INIT) as [r|] eqn:E; [|reflexivity].
@@ -179,7 +179,7 @@ Theorem gauleg_lengths_and_weight_symmetry orig x1 x2 npts coss xs ws :
   F.gauleg_gen orig x1 x2 npts coss = Ok (xs, ws) ->
   (0 < npts)%Z /\ length xs = Z.to_nat npts /\ length ws = Z.to_nat npts /\ rev ws = ws.
 Proof.
-  unfold F.gauleg_gen, F.reject_npts.
+  unfold F.gauleg_gen, F.reject_npts, F.outer_trips, F.inner_trips, F.REJECT_ERR.
   destruct (Z.leb_spec npts 0) as [Hn|Hn]; [discriminate|].
   destruct (Nat.eqb_spec (length coss) (Z.to_nat (F.m_of npts))) as [Hc|Hc]; simpl; [|discriminate].
   destruct (F.roots orig F.NEWTON_FUEL (Z.to_nat npts) (F.of_Z npts) coss F.Z1_INIT F.PP_INIT) as [r|] eqn:E; [|discriminate].
@@ -195,7 +195,7 @@ Qed.
 Theorem gauleg_rejection orig x1 x2 npts coss :
   F.gauleg_gen orig x1 x2 npts coss = Err EValue <-> (npts <= 0)%Z.
 Proof.
-  unfold F.gauleg_gen, F.reject_npts. destruct (Z.leb_spec npts 0) as [Hn|Hn].
+  unfold F.gauleg_gen, F.reject_npts, F.outer_trips, F.inner_trips, F.REJECT_ERR. destruct (Z.leb_spec npts 0) as [Hn|Hn].
   - split; [intros _; exact Hn | reflexivity].
   - split; [|lia]. intros H.
     destruct (negb (length coss =? Z.to_nat (F.m_of npts))%nat); [discriminate|].
@@ -250,3 +250,21 @@ Proof. exists YUfunc. split; reflexivity. Qed.
 Theorem dispatch_unchanged_outside_known k :
   kf_callable_not_function k = false -> dispatch true k = dispatch false k.
 Proof. destruct k; simpl; intros H; try reflexivity; discriminate. Qed.
+
+(* ------------------------------------------------------------------ (4) the prologue of the integrators *)
+(* q_integrate is: the prologue (setup; no count -> ValueError), then the integration proper with the held rule *)
+Lemma q_integrate_prologue {T Arg Out} (G : Z -> result T) (I : T -> Arg -> result Out) st npts a :
+  q_integrate G I st npts a =
+  match q_prologue G st npts with
+  | (st', Some e) => (st', Err e)
+  | (st', None) => match st_rule st' with Some r => (st', I r a) | None => (st', Err EType) end
+  end.
+Proof.
+  unfold q_integrate, q_prologue. destruct (setup G st npts) as [st' [e|]]; [reflexivity|].
+  destruct (st_npts st'); [|reflexivity]. destruct (st_rule st'); reflexivity.
+Qed.
+
+(* an object that never got a count raises ValueError on integrate, and stays as it was *)
+Lemma no_count_raises {T Arg Out} (G : Z -> result T) (I : T -> Arg -> result Out) a :
+  q_integrate G I q_none None a = (q_none, Err EValue).
+Proof. reflexivity. Qed.
